@@ -20,9 +20,21 @@ NOT_APPLICABLE = {
 
 # claimed by DESIGN.md but whose check is not built yet (kept out of `checks` until it runs clean end to end)
 PENDING = {p: "in scope for deterministic simulation (DESIGN.md §5) but the check is not built yet in this revision; not claimed"
-           for p in ["C07", "C12", "C13", "C14"]}
+           for p in ["C07", "C12", "C14"]}
 
 PROPS = {
+    "C13": {
+        "level": "exploration",
+        "level_text": "seeded generation of joint call scripts for the four call shapes, each executed over a real gRPC server/client pair on bufconn (the reference, in a fake-clock bubble) and over wrap.ServerToClient with client and handler as scheduled tasks under several interleavings and fake-time advance for deadlines; normalised client transcripts compared",
+        "level_note": TRUST + "; google.golang.org/grpc v1.67.1 over bufconn as the oracle; scripts are causally ordered (every send meets a receiver, cancel/deadline only after a server-to-client sync) so that the reference transcript does not depend on scheduling; each reference is run twice and discarded if unstable; headers/trailers compared only where gRPC itself is deterministic about them",
+        "technique": "deterministic simulation of client/handler tasks over the wrapper + differential comparison of client transcripts against real gRPC (bufconn) executions of the same scripted programs",
+        "rule": ("scripts (shape, 0-5 rounds of C>S / S>C / SendHeader / SetHeader / SetTrailer / half-close, terminal: return OK / status / client cancel / deadline, mutate-after-send) and the task interleaving come from the decision tape; every run is non-trivial (two parties); distinct = distinct (script, schedule) fingerprints"),
+        "scenarios": [
+            {"name": "wrap", "quick": 12000, "thorough": 1000000, "thorough_time": 400},
+        ],
+        "require_hits": [],
+        "assumptions": ["neither party relies on transport buffering (as in the statement)", "the error values a server's Recv/Send return after the call is over are not compared"],
+    },
     "C11": {
         "level": "exploration",
         "race": True,
